@@ -126,7 +126,12 @@ def scan_fsub(fails):
         if re.search(r'updCacheEntry\s*\(\s*s\s*,\s*cachedForcesAreValidCacheIndex\s*\)\s*\)\s*=\s*false', b): resets.append(STAGE[g])
         if re.search(r'cachedForcesAreValid\s*=\s*true', b): fills.append(STAGE[g])
     if len(fills) != 1: fails.append(('GeneralForceSubsystem', 'stage filling the position-only cache not unique: %s' % fills)); return None
-    return dict(en_inv=STAGE[m.group(1)], flag_dep=max(resets) if resets else 10, flag_by=fills[0], resets=resets)
+    # are the subsystem's z-derivatives cleared in realizeSubsystemDynamicsImpl before any element is realized / evaluated?
+    db = block_from(t, re.search(r'int\s+realizeSubsystemDynamicsImpl\s*\(', t).start())
+    zc = re.search(r'updZDot\s*\(\s*s\s*\)\s*(\.\s*setToZero\s*\(\s*\)|=\s*(Real\s*\(\s*)?0)', db)
+    first_use = re.search(r'calcForcesTask|realizeDynamics\s*\(', db)
+    zdot_cleared = bool(zc and (first_use is None or zc.start() < first_use.start()))
+    return dict(en_inv=STAGE[m.group(1)], flag_dep=max(resets) if resets else 10, flag_by=fills[0], resets=resets, zdot_cleared=zdot_cleared)
 
 def scan_matter(fails):
     t = strip_comments(src('SimbodyMatterSubsystemRep.cpp'))
@@ -189,7 +194,7 @@ def main():
                                                               coq_bool(c['rt']), coq_bool(c['rz']), coq_bool(c['zd']), ';' if k != ids[-1] else ' ', k, c['name']))
     L.append('].')
     L.append('Definition code_grav : gravdesc := mkG %d %d [%s].' % (grav['inv'], grav['dep'], '; '.join('(%s,%s)' % (coq_bool(a), coq_bool(b)) for a, b in grav['sets'])))
-    L.append('Definition code_fsub : fsdesc := mkF %d %d %d.' % (fs['en_inv'], fs['flag_dep'], fs['flag_by']))
+    L.append('Definition code_fsub : fsdesc := mkF %d %d %d %s.' % (fs['en_inv'], fs['flag_dep'], fs['flag_by'], coq_bool(fs['zdot_cleared'])))
     L.append('Definition code_matter : mdesc := mkMD %d %d [%s].' % (mat['opt_inv'], mat['inst_inv'], '; '.join(
         'mkMC %d %d %s %s %s %s' % (c['dep'], c['by'], coq_bool(c['q']), coq_bool(c['u']), coq_bool(c['z']), coq_list(c['ces'])) for c in mat['caches'])))
     L.append('Definition code_now : code := mkCode code_classes code_grav code_fsub code_matter %d %d %d %d.' % (stv['t'], stv['q'], stv['u'], stv['z']))
